@@ -18,7 +18,8 @@
 
 namespace cf = celma::format;
 
-static const char kGroups[5] = {'\'', ',', '.', ' ', '_'};
+static const int kNumGroups = 7;
+static const char kGroups[kNumGroups] = {'\'', ',', '.', ' ', '_', '\0', static_cast<char>(0xFF)};   // incl. NUL and a byte > 127
 static bool gAllGroups = true;
 static unsigned long gRotate = 0;
 
@@ -60,6 +61,11 @@ struct Guarded {
       while (k < n && blk[G + k] != 0) ++k;
       return std::string(reinterpret_cast<const char*>(blk.get() + G), k);
    }
+   std::string textN(long len) const {   // the first len bytes (texts with an embedded NUL group character)
+      if (len < 0) return text();
+      const size_t k = std::min(static_cast<size_t>(len), n);
+      return std::string(reinterpret_cast<const char*>(blk.get() + G), k);
+   }
    bool nulAt(long pos) const { return pos >= 0 && static_cast<size_t>(pos) < n && blk[G + pos] == 0; }
 };
 
@@ -97,6 +103,8 @@ template <typename T> static std::string viaStreamG(T value, char g) {
    case ',': return viaStream<T, ','>(value);
    case '.': return viaStream<T, '.'>(value);
    case ' ': return viaStream<T, ' '>(value);
+   case '\0': return viaStream<T, '\0'>(value);
+   case static_cast<char>(0xFF): return viaStream<T, static_cast<char>(0xFF)>(value);
    default: return viaStream<T, '_'>(value);
    }
 }
@@ -112,15 +120,15 @@ template <typename T> static void runAll(T value) {
       const int ret = cf::int2string(b.buf(), value);
       record("buf", value, '\'', false, b.text(), ret, b.nulAt(ret), b.guardsOk());
    }
-   for (int gi = 0; gi < 5; ++gi) {
-      if (!gAllGroups && gi != static_cast<int>(gRotate % 5)) continue;
+   for (int gi = 0; gi < kNumGroups; ++gi) {
+      if (!gAllGroups && gi != static_cast<int>(gRotate % kNumGroups)) continue;
       const char g = kGroups[gi];
       const std::string gs = cf::grouped_int2string(value, g);
       recordString("gstr", value, g, false, gs);
       {
          Guarded b(gs.size() + 1);
          const int ret = cf::grouped_int2string(b.buf(), value, g);
-         record("gbuf", value, g, false, b.text(), ret, b.nulAt(ret), b.guardsOk());
+         record("gbuf", value, g, false, g == '\0' ? b.textN(ret) : b.text(), ret, b.nulAt(ret), b.guardsOk());
       }
       recordString("gstream", value, g, false, viaStreamG(value, g));
       if (g == '\'') {   // the same with the group character left to the default argument
